@@ -417,4 +417,53 @@ def replay(job, v):
     if exc is not None:
         return v['obligation'].endswith('no_internal_error'), f'real function on real numpy raised {type(exc).__name__}: {exc}'
     bad = [(oid, det) for oid, det, val in res if oid == v['obligation'] and not bool(val)]
-    return bool(bad), f'real function on real numpy (libm values): failing {bad[:2]}'
+    if bad or job['item'] not in ('hcco_ref', 'bffm2_ref'):
+        return bool(bad), f'real function on real numpy (libm values): failing {bad[:2]}'
+    # The solver's model fixes the values of log10/10^x only up to their axioms, so its inputs need not fall in the
+    # same branch under libm.  The counterexample is then confirmed by a concrete witness searched inside the same
+    # input partition (this search confirms; it decides nothing).
+    w = witness_search(job, v)
+    if w is None:
+        return False, 'real function on real numpy (libm values): the model inputs do not fail and no concrete witness was found in the partition'
+    vals, bad = w
+    return True, f'real function on real numpy (libm values) at the witness {({k: round(x, 6) for k, x in vals.items()})}: failing {bad[:2]}'
+
+
+def witness_search(job, v, n=4000):
+    import random
+    from AEIC.performance.types import ThrustMode as TM
+    rng = random.Random(12345)
+    fn = ITEMS[job['item']]
+    case = tuple(job['case']) if job.get('case') else None
+    rel = {'<': lambda a_, b_: a_ < b_, '>': lambda a_, b_: a_ > b_, '=': lambda a_, b_: a_ == b_}
+    pre = 'xei' if job['item'] == 'hcco_ref' else 'noxei'
+    ffn = 'ff_eval' if job['item'] == 'hcco_ref' else 'sls_ff'
+    for _ in range(n):
+        vals = {}
+        for m in TM:
+            vals[f'{pre}_{m.value}'] = 10 ** rng.uniform(-1.5, 2.5)
+            vals[f'ffc_{m.value}'] = 10 ** rng.uniform(-1.5, 1.0)
+        if case is not None:
+            if case[0] == '=':
+                vals[f'ffc_{TM.APPROACH.value}'] = vals[f'ffc_{TM.IDLE.value}']
+            if case[1] == '=':
+                vals[f'{pre}_{TM.APPROACH.value}'] = vals[f'{pre}_{TM.IDLE.value}']
+        vals[ffn] = 10 ** rng.uniform(-2.0, 1.3)
+        vals['Tamb'], vals['Pamb'], vals['scale_k'] = rng.uniform(210.0, 310.0), rng.uniform(15000.0, 105000.0), 10 ** rng.uniform(-1, 1)
+        if case is not None:
+            ca, ci = vals[f'ffc_{TM.APPROACH.value}'], vals[f'ffc_{TM.IDLE.value}']
+            ea, ei_ = vals[f'{pre}_{TM.APPROACH.value}'], vals[f'{pre}_{TM.IDLE.value}']
+            ff, cc = vals[ffn], vals[f'ffc_{TM.CLIMB.value}']
+            ok = rel[case[0]](ca, ci) and rel[case[1]](ea, ei_) and ((ff < ci) if case[2] == 'low' else (ff >= ci))
+            if ok and case[2] != 'low':
+                ok = ((ff < ca) == (case[2][1] == '1')) and ((ff < cc) == (case[2][2] == '1'))
+            if not ok:
+                continue
+        run = sx.ConcreteRun(vals)
+        res, exc = run.run(fn)
+        if exc is not None:
+            continue
+        bad = [(oid, det) for oid, det, val in res if oid == v['obligation'] and not bool(val)]
+        if bad:
+            return vals, bad
+    return None
